@@ -289,6 +289,8 @@ def run(ctx):
         ctx.ob("R-CHK", "%s→%s" % (short(fn), short(ctor)), ok, "%s builds its value through %s" % (short(fn), short(ctor)),
                where=b.loc, detail=None if ok else K.why(f, mp, fn))
 
+    check_merge_iterators(ctx, f)
+
     # ---- C13.e shift sites ---------------------------------------------------------------
     shifts = []
     for n, b in f.bodies.items():
@@ -356,3 +358,129 @@ def check_provider_set_decoder(ctx, f):
         ok = len(cs) == 1 and re.search(r"ProviderAsSet::iter\(self\)|^Iterator::collect\(self\)", K.arg_renders(cs[0])[0]) is not None
         ctx.ob("R-FLOW", "ProviderAsSet::to_set:input", ok, "to_set feeds the unsafe constructor the decoded provider list itself",
                where=tb.loc, detail=K.arg_renders(cs[0]) if cs else None)
+
+
+# ---------------------------------------------------------------------------------------------
+# C13.f — the step tables of the four merge iterators over sorted AS-number sets
+
+MERGE_SPEC = {
+    # (left head, right head, order of the heads) -> what one step does
+    "SmallSetUnion": {("N", "N", "-"): "end", ("S", "N", "-"): "yield L", ("N", "S", "-"): "yield R",
+                      ("S", "S", "<"): "yield L", ("S", "S", "="): "drop one, yield the other", ("S", "S", ">"): "yield R"},
+    "SmallSetIntersection": {("N", "N", "-"): "end", ("S", "N", "-"): "end", ("N", "S", "-"): "end",
+                             ("S", "S", "<"): "skip L", ("S", "S", "="): "drop one, yield the other", ("S", "S", ">"): "skip R"},
+    "SmallSetDifference": {("N", "N", "-"): "end", ("N", "S", "-"): "end", ("S", "N", "-"): "yield L",
+                           ("S", "S", "<"): "yield L", ("S", "S", "="): "skip both", ("S", "S", ">"): "skip R"},
+    "SmallSetSymmetricDifference": {("N", "N", "-"): "end", ("S", "N", "-"): "yield L", ("N", "S", "-"): "yield R",
+                                    ("S", "S", "<"): "yield L", ("S", "S", "="): "skip both", ("S", "S", ">"): "yield R"},
+}
+
+
+def merge_step_table(b):
+    """{(L, R, order): set of actions} read off the CFG of a merge iterator's next()."""
+    s = K.sym_of(b)
+    table = {}
+    problems = []
+
+    def finish(conds, events, end):
+        st = {"L": None, "R": None, "cmp": None}
+        for d, v in conds:
+            m = re.match(r"^discr\(Peekable::peek\(self\.(left|right)\)\)$", d)
+            if m:
+                side = "L" if m.group(1) == "left" else "R"
+                val = "N" if v == 0 else "S"
+                if st[side] not in (None, val):
+                    return          # infeasible: the same head seen as both None and Some
+                st[side] = val
+                continue
+            if re.match(r"^discr\(Ord::cmp\(Peekable::peek\(self\.left\)↓Some\.0, Peekable::peek\(self\.right\)↓Some\.0\)\)$", d):
+                st["cmp"] = {255: "<", 0: "=", 1: ">"}.get(v, "?")
+                continue
+            if re.match(r"^discr\(Ord::cmp\(Peekable::peek\(self\.right\)↓Some\.0, Peekable::peek\(self\.left\)↓Some\.0\)\)$", d):
+                st["cmp"] = {255: ">", 0: "=", 1: "<"}.get(v, "?")      # heads compared the other way round
+                continue
+            problems.append("branches on %s" % d[:120])
+        if st["cmp"] == "?":
+            problems.append("unnamed ordering arm")
+        nexts = [(side, ret) for nm, side, ret in events if nm == "next"]
+        names = {"self.left": "L", "self.right": "R"}
+        seq = [(names.get(sd, sd), r) for sd, r in nexts]
+        if not seq and end == "return":
+            act = "end"
+        elif len(seq) == 1 and seq[0][1] == "ret" and end == "return":
+            act = "yield " + seq[0][0]
+        elif len(seq) == 1 and seq[0][1] == "" and end == "continue":
+            act = "skip " + seq[0][0]
+        elif len(seq) == 2 and {x for x, _ in seq} == {"L", "R"} and seq[0][1] == "" and seq[1][1] == "ret" and end == "return":
+            act = "drop one, yield the other"
+        elif len(seq) == 2 and {x for x, _ in seq} == {"L", "R"} and all(r == "" for _, r in seq) and end == "continue":
+            act = "skip both"
+        else:
+            act = "other: %s %s" % (seq, end)
+        lr = [(st["L"],), (st["R"],)]
+        for L in ([st["L"]] if st["L"] else ["N", "S"]):
+            for R in ([st["R"]] if st["R"] else ["N", "S"]):
+                if st["cmp"] and (L, R) != ("S", "S"):
+                    continue
+                key = (L, R, st["cmp"] or "-")
+                if (L, R) == ("S", "S") and not st["cmp"]:
+                    for o in "<=>":
+                        table.setdefault((L, R, o), set()).add(act)
+                else:
+                    table.setdefault(key, set()).add(act)
+
+    def rec(bb, conds, events, seen):
+        if bb in seen:
+            return finish(conds, events, "continue")
+        seen = seen | {bb}
+        t = b.blocks[bb]["term"]
+        k = t["t"]
+        if k == "return":
+            return finish(conds, events, "return")
+        if k in ("goto", "drop", "assert"):
+            return rec(t["target"], conds, events, seen)
+        if k == "call":
+            c = [c for c in b.calls() if c.bb == bb][0]
+            ev = events
+            if c.name in ("next", "next_back", "nth", "advance_by"):
+                ev = events + [(c.name, K.alpha(render(strip_deep(s.operand(c.args[0]))), b),
+                                "ret" if (t["dest"]["l"] == 0 and not t["dest"]["p"]) else "")]
+            if t.get("target") is not None:
+                return rec(t["target"], conds, ev, seen)
+            return
+        if k == "switch":
+            d = K.alpha(render(strip_deep(s.operand(t["discr"]))), b)
+            for v, tb in t["targets"]:
+                rec(tb, conds + [(d, v)], events, seen)
+            # the otherwise edge stands for the one value not listed
+            listed = {v for v, _ in t["targets"]}
+            ov = None
+            if "Ord::cmp" in d:
+                rest = [x for x in (255, 0, 1) if x not in listed]
+                ov = rest[0] if len(rest) == 1 else None
+            elif "peek" in d:
+                ov = 1 if 0 in listed else (0 if 1 in listed else None)
+            rec(t["otherwise"], conds + [(d, ov)], events, seen)
+    rec(0, [], [], frozenset())
+    return table, problems
+
+
+def check_merge_iterators(ctx, f):
+    n = 0
+    for ty, spec in sorted(MERGE_SPEC.items()):
+        name = "<resources::asn::%s<'_> as std::iter::Iterator>::next" % ty
+        b = f.body(name)
+        if b is None:
+            ctx.missing("R-REG", ty + "::next", name)
+            continue
+        n += 1
+        ctx.saw_fn(name)
+        table, problems = merge_step_table(b)
+        got = {k: sorted(v) for k, v in table.items()}
+        want = {k: [v] for k, v in spec.items()}
+        diff = {"%s/%s/%s" % k: {"function": got.get(k), "specification": want.get(k)} for k in sorted(set(got) | set(want))
+                if got.get(k) != want.get(k)}
+        ctx.ob("R-REG", "%s::next:step-table" % ty, not diff and not problems,
+               "one step of %s does, for every combination of (left head, right head, their order), what the set operation over two "
+               "ascending sequences requires" % ty, where=b.loc, detail={"differences": diff, "problems": problems[:4]})
+    ctx.floor("R-REG", "merge iterators over SmallAsnSet", n, 4)
